@@ -303,6 +303,65 @@ Proof.
 Qed.
 
 (* ------------------------------------------------------------------------------------ *)
+(* Faults: a failing or cancelled authorization check never yields Allow                  *)
+
+Lemma granted_with_fault g F c r s mods :
+  granted (with_fault g F) c r s mods -> granted g c r s mods.
+Proof.
+  unfold granted, with_fault. intros [H|[Hn [Hl Hm]]].
+  - left. destruct (F (OStore s)); [discriminate | exact H].
+  - right. split; [exact Hn|]. split; [exact Hl|].
+    intros m Hin. specialize (Hm m Hin). destruct (F (OModule s m)); [discriminate | exact Hm].
+Qed.
+
+(* whatever set of checks fails: a call that the control store does not authorize is not
+   authorized by the failures *)
+Lemma fault_never_grants g F cl m s mods :
+  authorize (with_fault g F) cl m s mods = Allow -> authorize g cl m s mods = Allow.
+Proof.
+  rewrite !authorize_iff_granted. intros [c [Hc [Hne Hg]]].
+  exists c. split; [exact Hc|]. split; [exact Hne|]. exact (granted_with_fault g F c _ s mods Hg).
+Qed.
+
+(* every check the decision rests on failing: denied, whatever the control store would say *)
+Lemma failing_checks_deny g F cl m s mods :
+  F (OStore s) = true -> (forall x, In x mods -> F (OModule s x) = true) ->
+  is_allow (authorize (with_fault g F) cl m s mods) = false.
+Proof.
+  intros Hs Hm. destruct (authorize (with_fault g F) cl m s mods) eqn:A; [|reflexivity].
+  apply authorize_iff_granted in A. destruct A as [c [_ [_ [H|[Hn [_ H]]]]]].
+  - unfold with_fault in H. rewrite Hs in H. discriminate.
+  - destruct mods as [|x r]; [contradiction|].
+    specialize (H x (or_introl eq_refl)). unfold with_fault in H.
+    rewrite (Hm x (or_introl eq_refl)) in H. discriminate.
+Qed.
+
+(* the failing check is a module check and there is no store-level grant: denied *)
+Lemma failing_module_check_denies g F cl m s mods x :
+  (forall c, cl = Claims c -> g c (spec_relation m) (OStore s) <> Some true) ->
+  In x mods -> F (OModule s x) = true ->
+  is_allow (authorize (with_fault g F) cl m s mods) = false.
+Proof.
+  intros Hs Hin Hx. apply (module_error_denies (with_fault g F) cl m s mods x); auto.
+  - intros c Hc. unfold with_fault. destruct (F (OStore s)); [discriminate | exact (Hs c Hc)].
+  - intros c _. unfold with_fault. rewrite Hx. reflexivity.
+Qed.
+
+Lemma write_fault_never_grants g k from cl s ls :
+  write_authorize_fault g k from cl s ls = Allow -> write_authorize g cl s ls = Allow.
+Proof.
+  unfold write_authorize_fault, write_authorize, authorize_fault.
+  destruct (extract_modules ls []); [discriminate|]. apply fault_never_grants.
+Qed.
+
+Lemma system_fault_never_grants g F cl m :
+  authorize_system (with_fault g F) cl m = Allow -> authorize_system g cl m = Allow.
+Proof.
+  rewrite !authorize_system_iff. intros [c [Hc [Hne Hg]]]. exists c. split; [exact Hc|]. split; [exact Hne|].
+  unfold with_fault in Hg. destruct (F OSystem); [discriminate | exact Hg].
+Qed.
+
+(* ------------------------------------------------------------------------------------ *)
 (* Writes and modules                                                                    *)
 
 Definition is_moduleless (l : mod_lookup) : bool :=
@@ -488,6 +547,38 @@ Proof.
     destruct (authorize_system g (Claims c) M_ListStores) eqn:A; [|discriminate].
     apply authorize_system_iff in A. destruct A as [c' [Hc' [Hne' _]]]. inversion Hc'; subst. exact Hne'.
   - left. simpl. apply Hsound. exact Hin.
+Qed.
+
+Lemma In_skipn {A} (x : A) n l : In x (skipn n l) -> In x l.
+Proof.
+  revert l. induction n as [|n IH]; intros l H; [exact H|].
+  destruct l as [|a r]; [exact H|]. right. apply IH. exact H.
+Qed.
+
+(* listing from any continuation token (an honest one, one left over from before a revocation,
+   a forged one), on either backend: every returned store is accessible and live *)
+Lemma list_stores_from_subset sq g la cl name all p acc ids :
+  accessible_stores g la cl = Some acc ->
+  list_stores_from sq g la cl name all p = LSStores ids ->
+  forall s, In s ids -> In s acc /\ In s (map fst all).
+Proof.
+  intros Ha. unfold list_stores_from. rewrite Ha.
+  destruct acc as [|a0 r0]; [intro H; inversion H; intros s []|].
+  intro H. inversion H; subst. clear H. intros s Hs.
+  apply in_map_iff in Hs. destruct Hs as [st [<- Hst]].
+  assert (K : In st (backend_list_stores_sqlite (a0 :: r0) name all)).
+  { destruct sq.
+    - unfold page_from_sqlite in Hst.
+      apply backend_list_stores_same_members in Hst.
+      apply (backend_list_stores_exact (a0 :: r0) name (skipn p all) st) in Hst; [|discriminate].
+      destruct Hst as [A [B C]].
+      apply backend_list_stores_same_members.
+      apply (backend_list_stores_exact (a0 :: r0) name all st); [discriminate|].
+      split; [exact (In_skipn st p all A) | split; assumption].
+    - unfold page_from_memory in Hst. exact (In_skipn st p _ Hst). }
+  apply backend_list_stores_same_members in K.
+  destruct (backend_list_stores_subset (a0 :: r0) name all st) as [A B]; [discriminate | exact K |].
+  split; [exact A | apply in_map; exact B].
 Qed.
 
 (* the backends still read an empty id list as "no filter"; the skip / no-access-control path
